@@ -8,8 +8,6 @@ import (
 	"path/filepath"
 	"strconv"
 	"strings"
-
-	"github.com/mmcloughlin/avo/gotypes"
 )
 
 // gen-lean Mov: build/zmov.go's first-match switch as structured rows, in
@@ -104,10 +102,47 @@ func parseMov(repo string) (*movAST, error) {
 		return nil, fmt.Errorf("mov: unexpected parameter list %v", m.Params)
 	}
 	recv := fd.Recv.List[0].Names[0].Name
-	if len(fd.Body.List) != 1 {
+	// statements before the switch may only name `t.Info()` (info := t.Info()); the names are aliases of it
+	infoAlias := map[string]bool{}
+	isInfoCall := func(e ast.Expr) bool {
+		for {
+			p, ok := e.(*ast.ParenExpr)
+			if !ok {
+				break
+			}
+			e = p.X
+		}
+		if id, ok := e.(*ast.Ident); ok {
+			return infoAlias[id.Name]
+		}
+		ic, ok := e.(*ast.CallExpr)
+		if !ok || len(ic.Args) != 0 {
+			return false
+		}
+		isel, ok := ic.Fun.(*ast.SelectorExpr)
+		if !ok || isel.Sel.Name != "Info" {
+			return false
+		}
+		tv, ok := isel.X.(*ast.Ident)
+		return ok && tv.Name == "t"
+	}
+	body := fd.Body.List
+	for len(body) > 1 {
+		as, ok := body[0].(*ast.AssignStmt)
+		if !ok || len(as.Lhs) != 1 || len(as.Rhs) != 1 || !isInfoCall(as.Rhs[0]) {
+			return nil, fmt.Errorf("mov: statement before the switch is not `name := t.Info()`")
+		}
+		id, ok := as.Lhs[0].(*ast.Ident)
+		if !ok {
+			return nil, fmt.Errorf("mov: statement before the switch is not `name := t.Info()`")
+		}
+		infoAlias[id.Name] = true
+		body = body[1:]
+	}
+	if len(body) != 1 {
 		return nil, fmt.Errorf("mov: body is not a single switch")
 	}
-	sw, ok := fd.Body.List[0].(*ast.SwitchStmt)
+	sw, ok := body[0].(*ast.SwitchStmt)
 	if !ok || sw.Tag != nil || sw.Init != nil {
 		return nil, fmt.Errorf("mov: body is not a tagless switch")
 	}
@@ -147,113 +182,130 @@ func parseMov(repo string) (*movAST, error) {
 			}
 			continue
 		}
-		if len(cc.List) != 1 {
-			return nil, fmt.Errorf("zmov.go:%d: case with several expressions", line)
-		}
-		c := movCase{Line: line, Recv: rx.Name, Opcode: sel.Sel.Name, An: -1, Bn: -1}
-		for _, a := range call.Args {
-			id, ok := a.(*ast.Ident)
-			if !ok {
-				return nil, fmt.Errorf("zmov.go:%d: non-identifier argument", line)
-			}
-			c.Args = append(c.Args, id.Name)
-		}
-		var conj []ast.Expr
-		flattenAnd(cc.List[0], &conj)
-		seenT := false
-		for _, e := range conj {
-			switch x := e.(type) {
-			case *ast.BinaryExpr:
-				// an == N | bn == N | (t.Info() & M) op V
-				if id, ok := x.X.(*ast.Ident); ok && x.Op == token.EQL && (id.Name == "an" || id.Name == "bn") {
-					bl, ok := x.Y.(*ast.BasicLit)
-					if !ok {
-						return nil, fmt.Errorf("zmov.go:%d: size comparison", line)
-					}
-					v, err := strconv.Atoi(bl.Value)
-					if err != nil {
-						return nil, err
-					}
-					if id.Name == "an" {
-						if c.An >= 0 {
-							return nil, fmt.Errorf("zmov.go:%d: an compared twice", line)
-						}
-						c.An = v
-					} else {
-						if c.Bn >= 0 {
-							return nil, fmt.Errorf("zmov.go:%d: bn compared twice", line)
-						}
-						c.Bn = v
-					}
-					continue
-				}
-				if x.Op != token.NEQ && x.Op != token.EQL {
-					return nil, fmt.Errorf("zmov.go:%d: unrecognised comparison", line)
-				}
-				lhs := x.X
-				if p, ok := lhs.(*ast.ParenExpr); ok {
-					lhs = p.X
-				}
-				and, ok := lhs.(*ast.BinaryExpr)
-				if !ok || and.Op != token.AND {
-					return nil, fmt.Errorf("zmov.go:%d: unrecognised type condition", line)
-				}
-				ic, ok := and.X.(*ast.CallExpr)
-				if !ok || len(ic.Args) != 0 {
-					return nil, fmt.Errorf("zmov.go:%d: type condition is not on t.Info()", line)
-				}
-				isel, ok := ic.Fun.(*ast.SelectorExpr)
-				if !ok || isel.Sel.Name != "Info" {
-					return nil, fmt.Errorf("zmov.go:%d: type condition is not on t.Info()", line)
-				}
-				if tv, ok := isel.X.(*ast.Ident); !ok || tv.Name != "t" {
-					return nil, fmt.Errorf("zmov.go:%d: type condition is not on t", line)
-				}
-				if seenT {
-					return nil, fmt.Errorf("zmov.go:%d: two type conditions", line)
-				}
-				seenT = true
-				if c.Mask, err = typesExpr(and.Y); err != nil {
-					return nil, fmt.Errorf("zmov.go:%d: %v", line, err)
-				}
-				if c.Value, err = typesExpr(x.Y); err != nil {
-					return nil, fmt.Errorf("zmov.go:%d: %v", line, err)
-				}
-				c.Op = x.Op.String()
-			case *ast.CallExpr:
-				s, ok := x.Fun.(*ast.SelectorExpr)
-				if !ok || len(x.Args) != 1 {
-					return nil, fmt.Errorf("zmov.go:%d: unrecognised predicate", line)
-				}
-				if p, ok := s.X.(*ast.Ident); !ok || p.Name != "operand" {
-					return nil, fmt.Errorf("zmov.go:%d: predicate is not from package operand", line)
-				}
-				arg, ok := x.Args[0].(*ast.Ident)
+		// `case A, B:` is `case A:` followed by `case B:` with the same body
+		for _, caseExpr := range cc.List {
+			c := movCase{Line: line, Recv: rx.Name, Opcode: sel.Sel.Name, An: -1, Bn: -1}
+			for _, a := range call.Args {
+				id, ok := a.(*ast.Ident)
 				if !ok {
-					return nil, fmt.Errorf("zmov.go:%d: predicate argument", line)
+					return nil, fmt.Errorf("zmov.go:%d: non-identifier argument", line)
 				}
-				switch arg.Name {
-				case "a":
-					if c.PredA != "" {
-						return nil, fmt.Errorf("zmov.go:%d: two predicates on a", line)
-					}
-					c.PredA = s.Sel.Name
-				case "b":
-					if c.PredB != "" {
-						return nil, fmt.Errorf("zmov.go:%d: two predicates on b", line)
-					}
-					c.PredB = s.Sel.Name
-				default:
-					return nil, fmt.Errorf("zmov.go:%d: predicate on %s", line, arg.Name)
-				}
-			default:
-				return nil, fmt.Errorf("zmov.go:%d: unrecognised conjunct", line)
+				c.Args = append(c.Args, id.Name)
 			}
+			var conj []ast.Expr
+			flattenAnd(caseExpr, &conj)
+			seenT := false
+			for _, e := range conj {
+				for {
+					p, ok := e.(*ast.ParenExpr)
+					if !ok {
+						break
+					}
+					e = p.X
+				}
+				switch x := e.(type) {
+				case *ast.BinaryExpr:
+					// an == N | bn == N | (t.Info() & M) op V   (either operand order)
+					if id, ok := x.Y.(*ast.Ident); ok && x.Op == token.EQL && (id.Name == "an" || id.Name == "bn") {
+						x = &ast.BinaryExpr{X: x.Y, Op: x.Op, Y: x.X}
+					}
+					if id, ok := x.X.(*ast.Ident); ok && x.Op == token.EQL && (id.Name == "an" || id.Name == "bn") {
+						bl, ok := x.Y.(*ast.BasicLit)
+						if !ok {
+							return nil, fmt.Errorf("zmov.go:%d: size comparison", line)
+						}
+						v, err := strconv.Atoi(bl.Value)
+						if err != nil {
+							return nil, err
+						}
+						if id.Name == "an" {
+							if c.An >= 0 {
+								return nil, fmt.Errorf("zmov.go:%d: an compared twice", line)
+							}
+							c.An = v
+						} else {
+							if c.Bn >= 0 {
+								return nil, fmt.Errorf("zmov.go:%d: bn compared twice", line)
+							}
+							c.Bn = v
+						}
+						continue
+					}
+					if x.Op != token.NEQ && x.Op != token.EQL {
+						return nil, fmt.Errorf("zmov.go:%d: unrecognised comparison", line)
+					}
+					unparen := func(e ast.Expr) ast.Expr {
+						for {
+							p, ok := e.(*ast.ParenExpr)
+							if !ok {
+								return e
+							}
+							e = p.X
+						}
+					}
+					lhs, rhs := unparen(x.X), x.Y
+					and, ok := lhs.(*ast.BinaryExpr)
+					if !ok || and.Op != token.AND {
+						// V op (t.Info() & M)
+						lhs, rhs = unparen(x.Y), x.X
+						and, ok = lhs.(*ast.BinaryExpr)
+					}
+					if !ok || and.Op != token.AND {
+						return nil, fmt.Errorf("zmov.go:%d: unrecognised type condition", line)
+					}
+					infoSide, maskSide := and.X, and.Y
+					if !isInfoCall(infoSide) {
+						infoSide, maskSide = and.Y, and.X
+					}
+					if !isInfoCall(infoSide) {
+						return nil, fmt.Errorf("zmov.go:%d: type condition is not on t.Info()", line)
+					}
+					if seenT {
+						return nil, fmt.Errorf("zmov.go:%d: two type conditions", line)
+					}
+					seenT = true
+					if c.Mask, err = typesExpr(maskSide); err != nil {
+						return nil, fmt.Errorf("zmov.go:%d: %v", line, err)
+					}
+					if c.Value, err = typesExpr(rhs); err != nil {
+						return nil, fmt.Errorf("zmov.go:%d: %v", line, err)
+					}
+					c.Op = x.Op.String()
+				case *ast.CallExpr:
+					s, ok := x.Fun.(*ast.SelectorExpr)
+					if !ok || len(x.Args) != 1 {
+						return nil, fmt.Errorf("zmov.go:%d: unrecognised predicate", line)
+					}
+					if p, ok := s.X.(*ast.Ident); !ok || p.Name != "operand" {
+						return nil, fmt.Errorf("zmov.go:%d: predicate is not from package operand", line)
+					}
+					arg, ok := x.Args[0].(*ast.Ident)
+					if !ok {
+						return nil, fmt.Errorf("zmov.go:%d: predicate argument", line)
+					}
+					switch arg.Name {
+					case "a":
+						if c.PredA != "" {
+							return nil, fmt.Errorf("zmov.go:%d: two predicates on a", line)
+						}
+						c.PredA = s.Sel.Name
+					case "b":
+						if c.PredB != "" {
+							return nil, fmt.Errorf("zmov.go:%d: two predicates on b", line)
+						}
+						c.PredB = s.Sel.Name
+					default:
+						return nil, fmt.Errorf("zmov.go:%d: predicate on %s", line, arg.Name)
+					}
+				default:
+					return nil, fmt.Errorf("zmov.go:%d: unrecognised conjunct", line)
+				}
+			}
+			if c.An < 0 || c.Bn < 0 || c.PredA == "" || c.PredB == "" || !seenT {
+				return nil, fmt.Errorf("zmov.go:%d: case does not have the five expected conjuncts", line)
+			}
+			m.Cases = append(m.Cases, c)
 		}
-		if c.An < 0 || c.Bn < 0 || c.PredA == "" || c.PredB == "" || !seenT {
-			return nil, fmt.Errorf("zmov.go:%d: case does not have the five expected conjuncts", line)
-		}
-		m.Cases = append(m.Cases, c)
 	}
 	if !sawDefault {
 		m.DefaultFn = ""
@@ -261,8 +313,7 @@ func parseMov(repo string) (*movAST, error) {
 	return m, nil
 }
 
-// basicGoTypes lists every basic type a component can resolve to, with the
-// flags and sizes the implementation itself uses (go/types, gotypes.Sizes).
+// basicGoTypes lists every basic type a component can resolve to.
 func basicGoTypes() []*types.Basic {
 	var out []*types.Basic
 	for _, k := range []types.BasicKind{types.Bool, types.Int, types.Int8, types.Int16, types.Int32, types.Int64,
@@ -273,15 +324,32 @@ func basicGoTypes() []*types.Basic {
 	return out
 }
 
+// movSizes: the sizes of the gc compiler on amd64 as go/types knows them — an
+// independent source (NOT avo's gotypes.Sizes, which is under test).
+var movSizes = types.SizesFor("gc", "amd64")
+
 func init() {
 	genLean["Mov"] = func(repo string) (string, error) {
-		m, err := parseMov(repo)
+		// (1) behaviour: the REAL Context.Load / Context.Store run over the complete class-level domain
+		tab, err := c08Tabulate()
 		if err != nil {
 			return "", err
 		}
+		// (2) the source of build/zmov.go as rows — a cross-check only: when the extractor does not recognise the
+		// shape of the (generated) file the rows are empty, movAstOK is false and the theorems about the rows are
+		// vacuous; the property theorems are about the behaviour table
+		m, astErr := parseMov(repo)
+		if astErr != nil {
+			m = &movAST{}
+		}
 		var b strings.Builder
-		b.WriteString("-- REGENERATED from build/zmov.go by avoh gen-lean Mov (go/ast): the cases of Context.mov in source order. Do not edit.\n")
+		b.WriteString("-- REGENERATED by avoh gen-lean Mov. movTab: outcomes of the real Context.Load/Store over the class-level domain (behaviour);\n")
+		b.WriteString("-- mov: the cases of Context.mov in build/zmov.go in source order (go/ast, cross-check only). Do not edit.\n")
 		b.WriteString("import AvoVerif.Model.Mov\nset_option maxRecDepth 1000000\nnamespace Avo.Gen\nopen Avo.Mov\n")
+		if astErr != nil {
+			fmt.Fprintf(&b, "/- go/ast extraction of build/zmov.go not possible: %s -/\n", strings.NewReplacer("-/", "- /", "/-", "/ -").Replace(astErr.Error()))
+		}
+		fmt.Fprintf(&b, "def movAstOK : Bool := %s\n", leanBool(astErr == nil))
 		b.WriteString("def mov : List MovRow := [")
 		for i, c := range m.Cases {
 			if i > 0 {
@@ -295,18 +363,39 @@ func init() {
 			fmt.Fprintf(&b, "\n  ⟨%d, %s, %d, %s, %d, %d, %d, %s, %s⟩ /- %s -/", c.An, encName(c.PredA), c.Bn, encName(c.PredB), c.Mask, op, c.Value, encName(c.Opcode), leanBool(inOrder), c.Opcode)
 		}
 		b.WriteString("]\n")
-		fmt.Fprintf(&b, "/-- the default branch: method called and its message -/\ndef movDefault : Nat × Nat := (%s, %s)\n", encName(m.DefaultFn), encName(strings.ReplaceAll(m.DefaultMsg, " ", "_")))
-		// basic types as the implementation sees them
-		b.WriteString("/-- basic Go types: (name, go/types Info flags, gc/amd64 size as gotypes.Sizes reports it) -/\ndef basicTypes : List (Nat × Nat × Nat) := [")
+		// basic types: flags from go/types, sizes from go/types' own gc/amd64 table
+		b.WriteString("/-- basic Go types: (name, go/types Info flags, gc/amd64 size by go/types.SizesFor) -/\ndef basicTypes : List (Nat × Nat × Nat) := [")
 		for i, t := range basicGoTypes() {
 			if i > 0 {
 				b.WriteString(", ")
 			}
-			fmt.Fprintf(&b, "(%s, %d, %d)", encName(t.Name()), int64(t.Info()), gotypes.Sizes.Sizeof(t))
+			fmt.Fprintf(&b, "(%s, %d, %d)", encName(t.Name()), int64(t.Info()), movSizes.Sizeof(t))
 		}
 		b.WriteString("]\n")
 		fmt.Fprintf(&b, "def tIsBoolean : Nat := %d\ndef tIsInteger : Nat := %d\ndef tIsUnsigned : Nat := %d\ndef tIsFloat : Nat := %d\n", types.IsBoolean, types.IsInteger, types.IsUnsigned, types.IsFloat)
-		b.WriteString("end Avo.Gen\n")
+		b.WriteString("/-- behaviour of Context.Load (dir 0) / Context.Store (dir 1): type flags, type size, register kind, size, byte-lane mask,\nkind of the address base register (0 = FP pseudo register, 1 = general purpose), outcome (none = error recorded, no instruction) -/\n")
+		b.WriteString("def movTab : List TabGroup := [")
+		gkey := ""
+		for _, r := range tab {
+			out := "none"
+			if r.outcome != "" {
+				out = "some " + encName(r.outcome)
+			}
+			if k := fmt.Sprintf("%d %s", r.dir, r.tname); k != gkey {
+				if gkey != "" {
+					b.WriteString("]⟩,")
+				}
+				gkey = k
+				fmt.Fprintf(&b, "\n ⟨%d, %d, %d, [", r.dir, r.tinfo, r.tsize)
+			} else {
+				b.WriteString(",")
+			}
+			fmt.Fprintf(&b, "\n  ⟨%d, %d, %d, %d, %s⟩ /- %s -/", r.rkind, r.rsize, r.rmask, r.mbase, out, r.note)
+		}
+		if gkey != "" {
+			b.WriteString("]⟩")
+		}
+		b.WriteString("]\nend Avo.Gen\n")
 		return b.String(), nil
 	}
 }
